@@ -76,3 +76,28 @@ Example C12_ex_preflight_debug :
     (headers_ACAC, Shared ShTrue); (headers_ACAM, ReqSlice headers_ACRM);
     (headers_ACAH, CfgSlice true); (headers_ACMA, CfgSlice false)], false).
 Proof. vm_compute; reflexivity. Qed.
+
+(* ---- tie to the source: the writes to header maps that tools/genconc extracts from middleware.go on this
+   run (Gen/ProvSrc.v). (1) the two functions that run BEFORE the wrapped handler (handleNonCORS,
+   handleCORSActual) install only Header.Add / Header.Set results and sub-slices of the request's own
+   headers - never a package-level singleton, never a configuration-owned slice; (2) every header write of
+   the file is one the provenance model accounts for (no unknown right-hand side, no Del, no write outside
+   the seven modelled functions); (3) every tag the model uses comes from a write that exists in the
+   source. Installing a shared or configuration-owned slice on a handler-visible path, or a new kind of
+   write, makes these theorems fail to check. ---- *)
+Require Import Gen.ProvSrc Proofs.ProvSrcP.
+
+Theorem C12_source_handler_paths_install_only_private_slices :
+  forallb handler_safe_w (go_writes_handleNonCORS ++ go_writes_handleCORSActual) = true.
+Proof. exact source_handler_paths_private. Qed.
+Print Assumptions C12_source_handler_paths_install_only_private_slices.
+
+Theorem C12_source_every_write_is_modelled :
+  forallb modelled_w all_go_writes = true /\ go_header_writes_elsewhere = 0%nat.
+Proof. exact source_every_write_is_modelled. Qed.
+Print Assumptions C12_source_every_write_is_modelled.
+
+Theorem C12_model_tags_come_from_source_writes : forall st dbg r pre,
+  Forall (fun kt => src_has_tag (snd kt) = true) (fst (pserve st dbg r pre)).
+Proof. exact model_tags_come_from_source. Qed.
+Print Assumptions C12_model_tags_come_from_source_writes.
